@@ -6,11 +6,17 @@ bytes.  `rotationSize` is the kernel regenerated from `Rotation.rotation_size` i
 namespace C19
 open Py Rotation Rotation.Gen
 
+/-- the regenerated kernel means: the file's size plus the ENCODED length exceeds the limit (this
+is where a changed operator or a changed operand in `rotation_size` breaks the proofs) -/
+theorem rotationSize_iff (tell b c S : Int) : rotationSize tell b c S = true ↔ tell + b > S := by
+  unfold rotationSize
+  first | (simp; done) | (simp; omega) | (constructor <;> intro h <;> simp at * <;> omega)
+
 /-- `rotation_only_when_needed` (kernel level): the size condition fires exactly when appending the
 encoded message to the current file would exceed the limit -/
 theorem rotation_only_when_needed (S : Int) (st : Option Int) (x : CallIn) :
     ((leafCall (.size S) st x).1 = true ↔ x.tell + x.bytes > S) ∧ (leafCall (.size S) st x).2 = st := by
-  simp [leafCall, rotationSize]
+  simp [leafCall, rotationSize_iff]
 
 /-- the limit may be fractional (`parse_size` of bits, floats): comparing an integer number of
 bytes with `num/den` is comparing it with the floor, which is what the model stores -/
@@ -85,7 +91,10 @@ theorem group_false_fits : ∀ (ls : List Leaf) (ss : List (Option Int)) (x : Ca
         simp only [Bool.not_eq_true] at hb
         rcases List.mem_cons.mp hm with h | h
         · subst h
-          simp [leafCall, rotationSize] at hb
+          simp only [leafCall] at hb
+          have hn : ¬ (x.tell + x.bytes > S) := fun hgt => by
+            have := (rotationSize_iff x.tell x.bytes x.chars S).mpr hgt
+            rw [hb] at this; exact Bool.false_ne_true this
           omega
         · exact ih ss x S (by simpa using hlen) h (by simpa using hf)
 
@@ -152,10 +161,15 @@ theorem new_file_only_when_needed (S : Int) (s : Sink) (m : Msg) (hlen : s.state
     have hr : rest = [] := by cases rest with | nil => rfl | cons _ _ => simp [hs] at hlen
     subst hr
     unfold Sink.write
-    simp only [hs, groupCall, leafCall, rotationSize]
+    simp only [hs, groupCall, leafCall]
     by_cases h : s.cur.size + m.bytes > S
-    · simp [h]
-    · simp [h]
+    · have hk := (rotationSize_iff s.cur.size m.bytes m.chars S).mpr h
+      simp [hk, h]
+    · have hk : rotationSize s.cur.size m.bytes m.chars S = false := by
+        cases hb : rotationSize s.cur.size m.bytes m.chars S with
+        | false => rfl
+        | true => exact absurd ((rotationSize_iff _ _ _ _).mp hb) h
+      simp [hk, h]
 
 /-- former finding F4, now a regression theorem: limit 16, messages of 5 characters / 9 bytes –
 every file stays within 16 bytes (one message per file), evaluated on the generated kernel -/
